@@ -92,7 +92,7 @@ pub struct Family {
     pub contents: BTreeMap<String, Vec<u8>>,
 }
 
-pub fn family(seed: u64, http: bool) -> Family {
+pub fn family(seed: u64, http: bool, nu: bool) -> Family {
     let tsets: Vec<[&str; 6]> = vec![
         // tA, tAB, tABC, tB, tE, tU
         ["a", "ab", "abc", "b", "", "é"],
@@ -109,6 +109,10 @@ pub fn family(seed: u64, http: bool) -> Family {
         // the request line carries the topic verbatim: keep to URL-safe ASCII there
         ts = [tsets[0], tsets[1], tsets[5], tsets[6]][rng.gen_range(0..4)];
         ts[5] = "u~u";
+    }
+    if nu {
+        // a topic is a string literal in the script: printable text of any script, no control characters
+        ts = [tsets[0], tsets[1], tsets[5], tsets[6]][rng.gen_range(0..4)];
     }
     let mut topics = BTreeMap::new();
     for (tok, s) in ["tA", "tAB", "tABC", "tB", "tE", "tU"].iter().zip(ts.iter()) {
@@ -137,6 +141,7 @@ pub fn family(seed: u64, http: bool) -> Family {
         json!({"handler_id": "x", "frame_id": "y"}),
         json!({"n": u64::MAX}),
         json!({"n": i64::MIN}),
+        json!({"big": 9007199254740993i64, "max": i64::MAX, "neg": -9007199254740993i64}),
         json!({"f": 1e300}),
         json!({"s": "esc \" \\ \n \u{1} \u{10ffff} é"}),
         json!([1, "two", null, true]),
@@ -147,6 +152,10 @@ pub fn family(seed: u64, http: bool) -> Family {
     ];
     let mut idx: Vec<usize> = (0..mpool.len()).collect();
     idx.shuffle(&mut rng);
+    if nu {
+        // `.append --meta` takes a record; an integer above i64::MAX becomes a float inside nu (not claimed by any property)
+        idx.retain(|&i| mpool[i].is_object() && mpool[i] != json!({}) && mpool[i] != json!({"n": u64::MAX}));
+    }
     let mut metas = BTreeMap::new();
     for (i, tok) in ["m1", "m2", "m3"].iter().enumerate() {
         metas.insert(tok.to_string(), mpool[idx[i]].clone());
@@ -253,6 +262,8 @@ pub struct Run {
     pub cli: bool,
     /// the behaviour was cut short because the command line tool printed nothing after a successful call
     pub lost: bool,
+    /// operations go through nu scripts using the commands xs gives to scripts (XSV_NU set); no API server
+    pub nu: bool,
     pub tok_hash: HashMap<String, String>,
 }
 
@@ -266,7 +277,7 @@ impl Run {
         std::fs::create_dir_all(&dir).unwrap();
         let mut r = Run {
             seed,
-            fam: family(seed, http),
+            fam: family(seed, http, std::env::var("XSV_NU").is_ok()),
             rng: StdRng::seed_from_u64(seed ^ 0x9e3779b97f4a7c15),
             dir,
             root: root.to_path_buf(),
@@ -289,6 +300,7 @@ impl Run {
             http,
             cli: http && std::env::var("XSV_CLI").map(|s| !s.is_empty()).unwrap_or(false),
             lost: false,
+            nu: std::env::var("XSV_NU").is_ok(),
             tok_hash: HashMap::new(),
         };
         r.start_worker();
@@ -345,7 +357,9 @@ impl Run {
     }
     /// how the operations reach the store
     fn via(&self) -> &'static str {
-        if self.cli {
+        if self.nu {
+            "nu"
+        } else if self.cli {
             "cli"
         } else if self.http {
             "http"
@@ -356,14 +370,14 @@ impl Run {
     /// C13 (C12 for the command line): the front end's answer is the store's answer in the same state. `req` is
     /// repeated on the Store API (nothing runs in between: collector gated, virtual clock) and `key` compared.
     fn faithful(&mut self, req: &Value, front: &Value, key: &str) -> bool {
-        if !self.http || self.dead {
+        if !(self.http || self.nu) || self.dead {
             return true;
         }
         let mut r2 = req.clone();
         r2["direct"] = json!(true);
         if r2["op"] == "read" {
-            // `GET /` is `Store::read`
-            r2["path"] = json!("stream");
+            // `GET /` is `Store::read`, `.cat` is `Store::read_sync`
+            r2["path"] = json!(if self.nu { "sync" } else { "stream" });
         }
         let d = self.call(r2);
         if Self::failed(&d) {
@@ -444,12 +458,14 @@ impl Run {
         if self.dead {
             return;
         }
-        if self.http && topic.starts_with("tNUL") {
-            // a raw NUL cannot be sent in a request line; the model's k still advances
+        if (self.http || self.nu) && topic.starts_with("tNUL") {
+            // a raw NUL cannot be sent in a request line (or written in a script); the model's k still advances
             let t = self.t;
             self.appended.entry(t).or_default().push(None);
             return;
         }
+        // (a script's `.append` always stamps a record: without --meta the frame carries the empty base record)
+        let meta = if self.nu && !self.fam.metas.contains_key(meta) { "m1" } else { meta };
         let topic_s = self.fam.topics.get(topic).cloned().unwrap_or(topic.to_string());
         let meta_v = self.fam.metas.get(meta).cloned().unwrap_or(Value::Null);
         let content_v = self
@@ -467,7 +483,7 @@ impl Run {
             return;
         }
         let mut via = self.via();
-        if self.http && resp["ok"] != json!(true) {
+        if (self.http || self.nu) && resp["ok"] != json!(true) {
             // C13 (C12 for the command line): does the Store API refuse it too? If it accepts, the front end refused what
             // the store takes: that refusal is the front end's, and the accepted append is the one that counts from here on
             let mut r2 = rq.clone();
@@ -659,7 +675,7 @@ impl Run {
     }
 
     pub fn op_head(&mut self, topic: &str, ctx: &str) {
-        if self.http && topic.starts_with("tNUL") {
+        if (self.http || self.nu) && topic.starts_with("tNUL") {
             return; // a raw NUL cannot travel in a request line
         }
         let topic_s = self.fam.topics.get(topic).cloned().unwrap_or(topic.to_string());
